@@ -50,7 +50,7 @@ def mk_writer(u: U, *, use_mask=None, methods=None, compress=0, notakeover=None)
     }
     return u.obj("WebSocketWriter", f, methods or {}, const=("protocol", "transport", "use_mask", "compress",
                                                                "notakeover", "_limit", "_send_lock"),
-                 init=(WMOD, "WebSocketWriter.__init__", (proto, tr), {}))
+                 init=(WMOD, "WebSocketWriter.__init__", (proto, tr), {}), real=(WMOD, "WebSocketWriter"))
 
 
 def wire_of(u):
@@ -213,6 +213,7 @@ def _send_frame_unit(u: U, which):
         u.event("frame", opcode, rsv, lock.held, message)
 
     g = {"ZLibCompressor": lambda **kw: _Comp(u, lock, **kw)}
+    u.module_globals[WMOD] = dict(g)     # helpers split off the compressor factory are followed with the same stub
     fs = fields(w)
     from pyvc.values import methods as _m
 
